@@ -182,10 +182,40 @@ def method_chain(e):
     return e, chain
 
 
+CONST_REG = {}  # name (short and module-qualified) -> initialiser expression of a crate `const`; filled by facts.load
+
+
+def set_consts(facts):
+    CONST_REG.clear()
+    short = {}
+    for k_, it in facts.consts.items():
+        if it.get("e") is not None:
+            CONST_REG[k_] = it["e"]
+            short.setdefault(k_.split("::")[-1], []).append(it["e"])
+    for n_, es in short.items():
+        # an unqualified name is resolved only when it is unique in the crate, or every definition folds to the same value
+        vals = {int_const(x) for x in es}
+        if len(es) == 1 or (len(vals) == 1 and None not in vals):
+            CONST_REG.setdefault(n_, es[0])
+
+
+_FOLDING = set()
+
+
 def int_const(e, consts=None):
-    """Constant-fold an integer expression (literals, * + - << | &, named consts)."""
+    """Constant-fold an integer expression (literals, * + - << | &, named consts of the crate)."""
     e = peel(e)
     k = e.get("k")
+    if k == "path" and consts is None:
+        n = "::".join(e["segs"])
+        tgt = CONST_REG.get(n) or CONST_REG.get(e["segs"][-1])
+        if tgt is not None and id(tgt) not in _FOLDING:
+            _FOLDING.add(id(tgt))
+            try:
+                return int_const(tgt)
+            finally:
+                _FOLDING.discard(id(tgt))
+        return None
     if k == "lit" and e["t"] == "int":
         return int(e["v"])
     if k == "binary":
@@ -206,3 +236,45 @@ def int_const(e, consts=None):
     if k == "cast":
         return int_const(e["e"], consts)
     return None
+
+
+def payload_accessor(facts, enum, fn):
+    """`fn m(&self) -> T { match self { V1(c) | V2(c) | .. => *c } }` over every variant of `enum`: m() is the payload."""
+    if fn is None or fn.node.get("self") not in ("&self", "self") or len([p for p in fn.params if p[0] != "self"]) != 0:
+        return False
+    t = tail_expr(fn.body)
+    if t is None or len(fn.body["stmts"]) != 1 or t["k"] != "match" or not is_var(t["scrut"], "self"):
+        return False
+    seen = set()
+    for arm in t["arms"]:
+        if arm.get("guard") is not None:
+            return False
+        names = set()
+        for p in pat_cases(arm["pat"]):
+            pv = pat_variant(p)
+            if not pv or len(pv[1]) != 1 or pv[1][0]["k"] != "ident":
+                return False
+            seen.add(pv[0].split("::")[-1])
+            names.add(pv[1][0]["name"])
+        if len(names) != 1 or not is_var(arm["body"], names.pop()):
+            return False
+    return seen == set(facts.variants(enum))
+
+
+def self_payload(facts, enum, fn, expr):
+    """Is `expr` (inside method `fn` of `enum`) the payload of self, whatever the variant?  Either a variable bound by an
+    irrefutable or-pattern over every variant (`let (V1(s) | V2(s) | ..) = self;`) or a call of a payload accessor."""
+    e = peel(expr)
+    if e.get("k") == "mcall" and not e["args"] and is_var(e["recv"], "self"):
+        return payload_accessor(facts, enum, facts.fns.get("%s::%s" % (enum, e["m"])))
+    nm = var_name(e)
+    if nm is None:
+        return False
+    for st in fn.body["stmts"]:
+        if st["k"] == "let" and st.get("init") is not None and is_var(st["init"], "self"):
+            cases = pat_cases(st["pat"])
+            vs = {pat_variant(p)[0].split("::")[-1] for p in cases if pat_variant(p)}
+            bn = {tuple(pat_bindings(p)) for p in cases}
+            if vs == set(facts.variants(enum)) and bn == {(nm,)}:
+                return True
+    return False
